@@ -19,6 +19,7 @@ struct Bld {
     bool ok = true;
     int locale;
     int force_edge = 0; // 1: the next destination goes to the end edge, 2: to the start edge (adjacent-data plans)
+    bool no_edges = false; // never place a buffer next to another task's memory (C13: what a call does must not depend on its neighbours)
     Bld(Rng &r_, TaskPlan &tp_, uint32_t &top_, int loc) : r(r_), tp(tp_), top(top_), locale(loc) {}
     uint32_t alloc(uint32_t n, uint32_t align) {
         uint32_t o = (top + align - 1) & ~(align - 1);
@@ -32,7 +33,7 @@ struct Bld {
     uint32_t put(const std::string &bytes, uint32_t align, uint32_t cap_bytes, bool dest = false) {
         uint32_t n = std::max<uint32_t>(cap_bytes, (uint32_t)bytes.size());
         bool want_end = force_edge == 1 && !tp.edge_end_used, want_start = force_edge == 2 && !tp.edge_start_used;
-        if (dest && n >= 1 && n <= 512 && align <= 4 && (ARENA_HI - n) % align == 0 && (want_end || want_start || r.chance(1, 8))) {
+        if (!no_edges && dest && n >= 1 && n <= 512 && align <= 4 && (ARENA_HI - n) % align == 0 && (want_end || want_start || r.chance(1, 8))) {
             if (!tp.edge_end_used && (want_end || (!want_start && r.chance(2, 3)))) {
                 tp.edge_end_used = true;
                 uint32_t o = ARENA_HI - n; // ends in the first half of the word shared with the next task
@@ -1033,6 +1034,7 @@ bool gen_alloc_op(Rng &r, TaskPlan &tp, uint32_t *top, int locale) {
 bool gen_op(Rng &r, int fam, TaskPlan &tp, uint32_t *top, const GenCfg &cfg, bool stdio_ok, int locale) {
     Bld b(r, tp, *top, locale);
     b.force_edge = cfg.force_edge;
+    b.no_edges = cfg.no_edges;
     bool viol = cfg.violations && (cfg.force_violation || r.chance(1, 6));
     if (cfg.force_edge) viol = false;
     bool ok;
